@@ -37,9 +37,19 @@ class FixAssertTupleTransform(LibcstResultTransformer, NameResolutionMixin):
 
     def _make_asserts(self, node: cst.Assert) -> List[cst.SimpleStatementLine]:
         return [
-            cst.SimpleStatementLine(body=[cst.Assert(test=element.value, msg=node.msg)])
-            for element in node.test.elements
+            cst.SimpleStatementLine(body=[cst.Assert(test=value, msg=node.msg)])
+            for value in self._flatten(node.test)
         ]
+
+    def _flatten(self, tuple_node: cst.Tuple) -> List[cst.BaseExpression]:
+        """The elements of the tuple; an element that is itself a non-empty tuple literal contributes its own elements"""
+        values: List[cst.BaseExpression] = []
+        for element in tuple_node.elements:
+            if isinstance(element.value, cst.Tuple) and element.value.elements:
+                values.extend(self._flatten(element.value))
+            else:
+                values.append(element.value)
+        return values
 
     def _report_new_lines(
         self, original_node: cst.SimpleStatementLine, newlines_count: int
